@@ -58,6 +58,9 @@ func replayC10(rf *ReplayFile, path string) int {
 		return notRepro("the two fresh processes agree")
 	case "c10-cli":
 		tries := 10
+		if rf.Exact {
+			tries = 1
+		}
 		for t := 0; t < tries; t++ {
 			a, bb := c.runCli(rf.CliPair[0]), c.runCli(rf.CliPair[1])
 			if a != bb {
